@@ -74,6 +74,7 @@ _SAFE_BUILTINS = {
     "reversed": lambda x: list(reversed(x)), "float": float, "round": round,
     "divmod": divmod, "zip": lambda *a: list(zip(*a)), "set": set,
     "frozenset": frozenset, "enumerate": lambda x: list(enumerate(x)),
+    "memoryview": lambda x: x,
 }
 _MAX_ITEMS = 70000
 
@@ -392,6 +393,9 @@ class Ev:
                 recv = self.ev(n.func.value)
                 return self._method(recv, n.func.attr, args, kw, n)
             raise
+        if isinstance(f, tuple) and f and f[0] == "builtin" and f[1] in ("list", "tuple", "sorted") \
+                and len(args) == 1 and isinstance(args[0], ClassRef) and self.is_enum(args[0].ci):
+            return list(self.enum_members(args[0].ci))
         if isinstance(f, tuple) and f and f[0] == "builtin":
             try:
                 return _SAFE_BUILTINS[f[1]](*args, **kw)
@@ -502,7 +506,10 @@ class Ev:
                 return self.run_block(st.body)
             return self.run_block(st.orelse)
         if isinstance(st, ast.For):
-            for v in self.ev(st.iter):
+            it = self.ev(st.iter)
+            if isinstance(it, ClassRef) and self.is_enum(it.ci):
+                it = self.enum_members(it.ci)
+            for v in it:
                 self._bind(st.target, v, self.env)
                 r = self.run_block(st.body)
                 if r is not _FALL:
